@@ -189,8 +189,11 @@ const (
 type runner struct {
 	p   *Plan
 	mem *vfs.MemFS
-	fs  vfs.FS
 	inj *injector
+	// gate of the current DB instance; failedOpens are the gates of instances
+	// whose Open returned an error.
+	gate        *gate
+	failedOpens []*gate
 	db  *pebble.DB
 	lg  *recLogger
 	ev  *events
@@ -232,10 +235,10 @@ func (r *runner) after(st int, detail, what string) (flow, error) {
 		return flowGo, nil
 	case stTimeout:
 		r.label("inconclusive-timeout")
-		r.inj.freeze()
+		r.gate.freeze("abandoned")
 		return flowInconclusive, nil
 	case stFatal:
-		r.inj.freeze()
+		r.gate.freeze("abandoned")
 		if !r.fired() {
 			return flowCrashed, fmt.Errorf("%s: %s: Pebble called Fatalf although no fault had been injected: %s", r.where(), what, detail)
 		}
@@ -244,7 +247,7 @@ func (r *runner) after(st int, detail, what string) (flow, error) {
 		r.fgEffect = true
 		return flowCrashed, nil
 	default: // stPanic
-		r.inj.freeze()
+		r.gate.freeze("abandoned")
 		if !r.fired() || !strings.Contains(detail, "injected error") {
 			return flowCrashed, fmt.Errorf("%s: %s: panic: %s", r.where(), what, detail)
 		}
@@ -258,6 +261,8 @@ func (r *runner) after(st int, detail, what string) (flow, error) {
 
 func fatalClass(msg string) string {
 	switch {
+	case strings.Contains(msg, "atomicfs.Marker"):
+		return "marker-dirsync-panic"
 	case strings.Contains(msg, "MANIFEST"):
 		return "manifest"
 	case strings.Contains(msg, "fatal commit error"):
@@ -280,6 +285,15 @@ func (r *runner) fgError(what string, err error) error {
 	return nil
 }
 
+// buildOptions is dbm.BuildOptions with two file-cache shards instead of
+// GOMAXPROCS: every shard owns a goroutine, and the goroutines of a DB that is
+// abandoned after a fatal error stay parked for the rest of the process.
+func buildOptions(op dbm.OptPlan, fs vfs.FS, el *pebble.EventListener, lg pebble.Logger) *pebble.Options {
+	o := dbm.BuildOptions(op, fs, el, lg)
+	o.FileCacheShards = 2
+	return o
+}
+
 type openRes struct {
 	db  *pebble.DB
 	err error
@@ -290,7 +304,8 @@ type openRes struct {
 func (r *runner) open() (flow, error) {
 	for attempt := 0; attempt < 2; attempt++ {
 		r.lg = newLogger()
-		opts := dbm.BuildOptions(r.p.Opt, r.fs, r.ev.listener(), r.lg)
+		r.gate = &gate{in: r.inj, lg: r.lg}
+		opts := buildOptions(r.p.Opt, errorfs.Wrap(safeFS{r.mem}, r.gate), r.ev.listener(), r.lg)
 		var resume func()
 		if attempt == 1 {
 			resume = r.inj.pause()
@@ -310,6 +325,9 @@ func (r *runner) open() (flow, error) {
 			r.C["opens"]++
 			return flowGo, nil
 		}
+		// Whatever the failed Open left running must not touch the store any more.
+		r.gate.freeze("Open returned an error")
+		r.failedOpens = append(r.failedOpens, r.gate)
 		if attempt == 1 {
 			return flowGo, fmt.Errorf("%s: Open with all faults paused fails after an Open that failed under faults: %v", r.where(), res.err)
 		}
@@ -326,22 +344,37 @@ type dumpRes struct {
 	err error
 }
 
+// pausedRetries bounds the repetitions of an oracle read that fails although
+// all faults are paused: such a read can still share the result of a table
+// open / block load that a background goroutine started before the pause and
+// that failed (file cache and block cache hand the error of an in-flight load
+// to every waiter). Only a failure that persists is a violation.
+const pausedRetries = 6
+
 // dump reads the full visible state with all faults paused.
 func (r *runner) dump() (*dbm.State, flow, error) {
 	resume := r.inj.pause()
+	defer resume()
 	db := r.db
-	res, st, detail := call(r.lg, func() dumpRes {
-		s, err := dbm.DumpState(db)
-		return dumpRes{s, err}
-	})
-	resume()
-	if fl, err := r.after(st, detail, "full scan"); fl != flowGo || err != nil {
-		return nil, fl, err
+	var last error
+	for i := 0; i < pausedRetries; i++ {
+		res, st, detail := call(r.lg, func() dumpRes {
+			s, err := dbm.DumpState(db)
+			return dumpRes{s, err}
+		})
+		if fl, err := r.after(st, detail, "full scan"); fl != flowGo || err != nil {
+			return nil, fl, err
+		}
+		if res.err == nil {
+			return res.st, flowGo, nil
+		}
+		if !r.fired() {
+			return nil, flowGo, fmt.Errorf("%s: a full scan returns an error although no fault had been injected: %v", r.where(), res.err)
+		}
+		last = res.err
+		r.C["paused-read-retries"]++
 	}
-	if res.err != nil {
-		return nil, flowGo, fmt.Errorf("%s: a full scan with all faults paused returns an error: %v", r.where(), res.err)
-	}
-	return res.st, flowGo, nil
+	return nil, flowGo, fmt.Errorf("%s: a full scan with all faults paused keeps returning an error (%d attempts): %v", r.where(), pausedRetries, last)
 }
 
 type writer interface {
@@ -464,7 +497,7 @@ func (r *runner) step(s Step) (flow, error) {
 				return flowGo, fmt.Errorf("%s: after the failed commit (%v) the visible state is neither the state before nor the state after the batch:%s",
 					r.where(), err, describeDiff(got, next))
 			}
-			r.inj.freeze()
+			r.gate.freeze("abandoned")
 			return flowCrashed, nil
 		}
 		r.versions = append(r.versions, next)
@@ -623,11 +656,20 @@ func (r *runner) verifyAlive(when string) (flow, error) {
 		return flowGo, fmt.Errorf("%s (%s): the visible state differs from the model (faults fired so far: %d):%s", r.where(), when, r.inj.firedTotal(), describeDiff(got, r.latest()))
 	}
 	resume := r.inj.pause()
+	defer resume()
 	db := r.db
-	cerr, st, detail := call(r.lg, func() error { return db.CheckLevels(nil) })
-	resume()
-	if fl, err := r.after(st, detail, "CheckLevels"); fl != flowGo || err != nil {
-		return fl, err
+	var cerr error
+	for i := 0; i < pausedRetries; i++ {
+		var st int
+		var detail string
+		cerr, st, detail = call(r.lg, func() error { return db.CheckLevels(nil) })
+		if fl, err := r.after(st, detail, "CheckLevels"); fl != flowGo || err != nil {
+			return fl, err
+		}
+		if cerr == nil || !r.fired() {
+			break
+		}
+		r.C["paused-read-retries"]++
 	}
 	if cerr != nil {
 		return flowGo, fmt.Errorf("%s (%s): DB.CheckLevels with all faults paused: %v", r.where(), when, cerr)
@@ -643,6 +685,7 @@ func (r *runner) closeDB() (error, flow, error) {
 		return nil, fl, err
 	}
 	r.db = nil
+	r.gate.freeze("closed")
 	return cerr, flowGo, nil
 }
 
@@ -748,7 +791,7 @@ func (r *runner) crashImages(what string) error {
 func (r *runner) checkStore(fs vfs.FS, cands []*dbm.State, where string) (int, error) {
 	lg := newLogger()
 	ev := &events{}
-	opts := dbm.BuildOptions(r.p.Opt, fs, ev.listener(), lg)
+	opts := buildOptions(r.p.Opt, fs, ev.listener(), lg)
 	fail := func(format string, args ...any) (int, error) {
 		return 0, fmt.Errorf("%s (faults fired: %d; durable version %d of %d; fatal: %q): %s", where, r.inj.firedTotal(), r.durable, len(r.versions)-1, r.lg.first(), fmt.Sprintf(format, args...))
 	}
@@ -848,7 +891,7 @@ func (r *runner) endAlive() error {
 	} else if r.walOn() {
 		lo = len(r.versions) - 1
 	}
-	k, err := r.checkStore(r.fs, r.versions[lo:], fmt.Sprintf("final Close (err=%v) and reopen", cerr))
+	k, err := r.checkStore(r.mem, r.versions[lo:], fmt.Sprintf("final Close (err=%v) and reopen", cerr))
 	if err != nil {
 		return err
 	}
@@ -866,7 +909,7 @@ func (r *runner) afterFlow(fl flow, err error) error {
 	}
 	switch fl {
 	case flowCrashed:
-		r.inj.freeze()
+		r.gate.freeze("abandoned")
 		return r.crashImages("crash image after the DB became unusable")
 	case flowInconclusive:
 		return nil
@@ -904,14 +947,41 @@ func exec(p Plan) (evid.Outcome, error) {
 	if !p.NoExclude {
 		inj.suppress = knownFindingClass(func(sig string) bool { return evid.FindingActive("C43", sig) })
 	}
-	r := &runner{p: &p, mem: mem, inj: inj, fs: errorfs.Wrap(mem, inj), ev: &events{},
+	r := &runner{p: &p, mem: mem, inj: inj, ev: &events{},
 		versions: []*dbm.State{dbm.NewState()}, labels: map[string]bool{}, C: map[string]int{}}
 	verr := r.run()
 	// whatever is left of the DB must not keep working in the background.
-	if r.db != nil {
-		inj.freeze()
+	if r.gate != nil {
+		r.gate.freeze("end of case")
 	}
 	var out evid.Outcome
+	// An Open that returned an error must not leave goroutines behind that keep
+	// using the store (they were parked at their first file-system operation).
+	for _, g := range r.failedOpens {
+		// give a leaked goroutine a moment to show up (observation only: not
+		// seeing one is never a verdict).
+		for i := 0; i < 100; i++ {
+			if n, _ := g.lateOps(); n > 0 || g.lg.fataled() {
+				break
+			}
+			time.Sleep(500 * time.Microsecond)
+		}
+		n, ops := g.lateOps()
+		if g.lg.fataled() {
+			n++
+			ops = append(ops, "Fatalf: "+g.lg.first())
+		}
+		if n > 0 {
+			r.label("failed-open-left-goroutines-running")
+			if p.NoExclude || !evid.FindingActive("C43", SigFailedOpenLeak) {
+				if verr == nil {
+					verr = fmt.Errorf("an Open that returned an error left goroutines behind that kept issuing file-system operations on the store (%d observed, first: %v)", n, ops)
+				}
+			} else {
+				out.Excluded = SigFailedOpenLeak
+			}
+		}
+	}
 	for l := range r.labels {
 		out.Labels = append(out.Labels, l)
 	}
@@ -943,7 +1013,7 @@ func exec(p Plan) (evid.Outcome, error) {
 	// A case that met an excluded class: the fault was withheld, everything else
 	// was still checked (a violation is still reported), but the case is not
 	// counted as evidence.
-	for _, sig := range []string{SigCompactFirst, SigCompactSaveValue} {
+	for _, sig := range []string{SigCompactFirst, SigCompactSaveValue, SigFailedOpenLeak, SigBlobAbort} {
 		if inj.suppressed[sig] > 0 && out.Excluded == "" {
 			out.Excluded = sig
 		}
